@@ -25,17 +25,10 @@ def corpus_cases():
 
 
 def borderline(ids, case, prune):
-    """closed-form discount within float rounding of a boundary of the accepted range, or of a count that
-    decides acceptance: refusal may legitimately differ between float and exact arithmetic"""
-    from fractions import Fraction
-    r = kn.kn_oracle(ids, case.order, prune, None, True, [Fraction(1, 2), Fraction(1), Fraction(3, 2)])
-    if r[0] != "built":
-        return False
-    for d in r[2]:
-        for j in (1, 2, 3):
-            if abs(float(d[j - 1])) < 1e-5 or abs(float(d[j - 1]) - j) < 1e-5:
-                return True
-    return False
+    """float32 and exact arithmetic disagree on whether some order's closed-form discounts are in range (a genuine
+    rounding artefact, e.g. exact D2 = 0 computed as -2.4e-7).  A discount that is exactly on the boundary in BOTH
+    arithmetics (D2 = 0 for n = 2,3,8; D3 = 3 for n4 = 0) is NOT borderline: the closed form must be used."""
+    return kn.rounding_borderline(ids, case.order)
 
 
 def judge(case, run, model_out):
@@ -198,7 +191,9 @@ def component_check(ctx, cases, model):
     import struct
     drv = vlib.compile_driver("c05_adjust_driver", os.path.join(vlib.ROOT, "harness", "drivers", "c05_adjust_driver.cc"),
                               libs=("kenlm_builder", "kenlm", "kenlm_util"))
-    lines = [l for l in (adjf_line(c) for c in cases) if l and len(l) < 400000]
+    pairs = [(l, c) for l, c in ((adjf_line(c), c) for c in cases) if l and len(l) < 400000]
+    lines = [l for l, _ in pairs]
+    case_of = dict(pairs)
     if not lines:
         return 0, []
     iout = vlib.run_lines(drv, lines, timeout=ctx.pick(300, 1500))
@@ -228,8 +223,11 @@ def component_check(ctx, cases, model):
             fx = [struct.unpack("<f", struct.pack("<I", int(h, 16)))[0] for h in x.split(":")]
             fy = [float(kn.parse_q(q)) for q in y.split(":")]
             if any(abs(u - v) > 2e-5 * max(abs(v), 1e-3) + 1e-6 for u, v in zip(fx, fy)):
-                # closed form on the boundary of its range: float and exact arithmetic may choose differently
-                if fx == [0.5, 1.0, 1.5] or fy == [0.5, 1.0, 1.5]:
+                # float32 and exact arithmetic may legitimately choose differently between closed form and fallback, but only
+                # when they disagree on the range test itself
+                cc = case_of[l]
+                numbered = kn.number(kn.tokenize(cc.data), cc.skip)
+                if numbered and kn.rounding_borderline([[w for w in s_ if w > 2] for s_ in numbered[0]], cc.order):
                     continue
                 bad.append((l, pa[2], pb[2], "discounts differ"))
                 break
@@ -251,6 +249,8 @@ def run(ctx):
     ngen = ctx.pick(700, 8000)
     big = not ctx.quick
     cases += [kn.gen_case(rng, big) for _ in range(ngen)]
+    # corpora with prescribed counts of counts on the case splits of the discount formula (D_j = 0, just in/out, D3 = 3, n_j = 0)
+    cases += [kn.gen_profile_case(rng) for _ in range(ctx.pick(160, 2000))]
     res = check_cases(ctx, cases, lmplz, model)
     kinds, nontrivial, spec_fail, corr_fail = {}, set(), [], []
     orders = {}
@@ -279,6 +279,12 @@ def run(ctx):
         "renumbered_with_word_sorting_before_<s>": sum(1 for c in cases if (c.renumber or c.intermediate) and
                                                       any(kn.murmur64a(t) < kn.murmur64a(b"<s>") for t in set(c.data.split()) if t not in kn.SPECIALS)),
         "interpolate_unigrams_0": sum(1 for c in cases if not c.interp)}
+    prof = {}
+    for c in cases:
+        if c.tag.startswith("gen:profile:"):
+            k = c.tag.split(":")[2] + (" +fallback" if c.fallback is not None else " no fallback")
+            prof[k] = prof.get(k, 0) + 1
+    ctx.coverage["discount_boundary_profiles(highest order has exactly these counts of counts)"] = prof
     ctx.count("evaluations", len(cases))
     ctx.coverage["distinct_nontrivial"] = len(nontrivial)
     ctx.coverage["rule"] = ("one evaluation = one lmplz run on a generated corpus (5-400 sentences, 1-60 word types, Zipf-like repetition, repeated "
